@@ -62,11 +62,27 @@ ExpSpoils(e, T) ==
       [] e.t = "Quotient" -> ExpSpoils(e.a, T) /\ ~DependsOn(e.b, T)
       [] OTHER -> FALSE
 
+\* "free of those variables", decided on the returned trees themselves (also outside the rational
+\* fragment): a target variable may not occur in a coefficient or in the constant term.  Where it
+\* occurs only INSIDE an opaque leaf (f(x), a[x], o.x.. kept whole as a constant) the clause has its
+\* own name.
+RECURSIVE MentionsOutside(_, _)
+MentionsOutside(e, names) ==
+    IF e.t \in {"Call", "CallKw", "Sub", "Look"} THEN FALSE
+    ELSE IF e.t = "Var" THEN e.name \in names
+    ELSE \E i \in 1..Len(Kids(e)) : MentionsOutside(Kids(e)[i], names)
+MentionsVar(e, names) == \E s \in SubExprs(e) : s.t = "Var" /\ s.name \in names
+
 JudgeCoeffs(e, names, allTargets, res) ==
     LET T == IF allTargets THEN { i \in 1..NAtoms : TRUE } ELSE TargetAtoms(names)
         aff0 == IsAffine(e, T)
         aff == IF aff0 = "NA" /\ ExpSpoils(e, T) THEN "NO" ELSE aff0
-    IN IF res.r = "unser" \/ aff = "NA" THEN "SKIP"
+    IN IF res.r = "unser" THEN "SKIP"
+       ELSE IF res.r = "ok" /\ ~allTargets /\ \E i \in 1..Len(res.coeffs) : MentionsOutside(res.coeffs[i].coeff, names)
+            THEN "coefficient-mentions-target"
+       ELSE IF res.r = "ok" /\ ~allTargets /\ \E i \in 1..Len(res.coeffs) : MentionsVar(res.coeffs[i].coeff, names)
+            THEN "target-inside-opaque-leaf-kept-as-constant"
+       ELSE IF aff = "NA" THEN "SKIP"
        ELSE IF res.r = "err" THEN
             (IF aff = "NO" THEN "OK"
              ELSE IF ObviouslyAffine(e, T) THEN "refuses-affine-input" ELSE "SKIP")
